@@ -46,6 +46,9 @@ pub struct StepRec {
     pub expect: Option<Expect>,
     /// resolved at the next call: Some(true) accepted, Some(false) rejected
     pub outcome: Option<bool>,
+    /// the evaluated parameters equal one of the candidate current states bit for bit (a move clamped to no
+    /// change, or the final validity evaluation)
+    pub maybe_noop: bool,
 }
 
 fn differing(a: &[f64], b: &[f64]) -> (usize, Option<usize>) {
@@ -224,6 +227,7 @@ impl Model {
         let mut changed: Option<usize> = None;
         let mut changed_consistent = true;
         let mut delta_min = f64::INFINITY;
+        let mut maybe_noop = false;
         for (c, _) in bases.iter() {
             let (n, idx) = differing(&c.params, params);
             if n == 1 {
@@ -238,6 +242,7 @@ impl Model {
                 }
             } else if n == 0 {
                 delta_min = 0.;
+                maybe_noop = true;
             }
         }
         if !changed_consistent {
@@ -260,6 +265,7 @@ impl Model {
                 base_score: unique.as_ref().map(|u| u.0.score),
                 expect: unique.as_ref().map(|u| u.1),
                 outcome: None,
+                maybe_noop,
             });
         }
         self.pending = Some((params.to_vec(), returned, bases));
